@@ -257,8 +257,8 @@ def run_case(case, root, ck=None):
                       o = u64(oid_of[op[1]])
                       if kind == 'unlink':
                           linked_p.discard(o)
-                      elif o in L.hist and L.hist[o][-1][1] is not None:
-                          linked_p.add(o)
+                      elif o in L.hist and L.hist[o][-1][1] is not None and (o, L.hist[o][-1][0]) not in L.gone:
+                          linked_p.add(o)        # (never link an object a pack has dropped: dangling reference)
                   elif kind in ('blob', 'plain', 'missingblob', 'undo'):
                       if txn is None or phase != 'begun' or failed:
                           continue               # after a raising call the transaction is only aborted
